@@ -571,7 +571,6 @@ pub fn judge_c12(cx: &DeliveryCtx, out: &mut RunOut) {
         }
     }
     judge_component(cx, out, "C12", "fold-merges-losslessly-else-body-hashed", &[Rule::BodyCharset, Rule::BodyEncoding], true);
-    judge_isolated(cx, out, "C12", "fold-merges-losslessly-else-body-hashed");
     if baseline_ok(cx, out) {
         judge_canonical(cx, out, &["C12"]);
     }
@@ -696,7 +695,10 @@ pub fn judge_c14(cx: &DeliveryCtx, out: &mut RunOut) {
     }
     // the outcome is the one an immediate provider with the same answer gives (control twin):
     // pending states, spurious polls and concurrency never change it
-    if let Some(ctl) = cx.control {
+    // (jurisdiction: this validation really was suspended or interleaved; otherwise it *is* the
+    // control, and a difference between the two would be about repetition, which is C18's clause)
+    let suspended = cx.script.ready_pending > 0 || cx.script.answer_pending > 0 || cx.events.iter().any(|e| matches!(e.kind, EvKind::SpuriousPoll));
+    if let (Some(ctl), true) = (cx.control, suspended) {
         out.probe("control_twin_compared");
         let sig = |o: &ValOut| match o {
             // (what is returned on success is C15's and C18's matter; here only who was authenticated)
